@@ -1,9 +1,151 @@
 import Driver.Loop
+import Midgard.Model.Writers
 
-/-! Driver for C17: placeholder until the model is written. -/
+/-! Driver for C17 (text travels hex-encoded; `.` = empty, `-` = absent).
+
+  value      n:<rat> | nan | nz (the double -0.0) | s:<hex> | i:<int>
+  env        NAME=value;NAME=value…           (`[]` = empty)
+  c17 row <writer> <line> <env>               one formatted line of a writer  → hex | err
+  c17 nominal <writer> <line>                 name:start:stop,…
+  c17 conforms <writer> <line> <hex>          does a written line decompose into the nominal columns → 1 | 0
+  c17 crd <0|1> <stations>   c17 vel <0|1> <stations>       station = hexkey~domes~x;y;z~plate (`,`-separated)
+  c17 clu <hexkey,…>
+  c17 tmscols <field,…>                       existing TIMESERIES/DATA columns for dataset fields
+  c17 tmshdr <col,…>                          the `* _NAME__` line
+  c17 tmsdata <col,…> <epoch|epoch…>          epoch = <int>@env
+  c17 blocks <0|1> <0|1> <0|1>                markers of the blocks written + balanced flag
+  c17 csv <fmt,…> <row|row…>                  fmt = s | d | f<prec>;  row = <hexdate>@value;value…
+-/
 namespace Driver.C17
+open Midgard.Proto Midgard.Writers Midgard.WriterCells Midgard.Generated.WriterLayouts
+
+def hexOf (s : List Char) : String := encodeHex (String.ofList s)
+
+def parseValue? (s : String) : Option Value :=
+  if s = "nan" then some .nan
+  else if s = "nz" then some .negz
+  else if s.startsWith "n:" then (parseRat? (s.drop 2).toString).map .num
+  else if s.startsWith "s:" then (decodeHex? (s.drop 2).toString).map fun t => .str t.toList
+  else if s.startsWith "i:" then ((s.drop 2).toString.toInt?).map .int
+  else none
+
+def parseEnv? (s : String) : Option Env :=
+  if s = "[]" then some [] else
+  (s.splitOn ";").mapM fun kv =>
+    match kv.splitOn "=" with
+    | [k, v] => (parseValue? v).map fun x => (k, x)
+    | _ => none
+
+def parseOptTxt? (s : String) : Option (Option (List Char)) :=
+  if s = "-" then some none else (decodeHex? s).map fun t => some t.toList
+
+def parseStation? (s : String) : Option Station :=
+  match s.splitOn "~" with
+  | [k, d, c, p] => do
+    let key ← decodeHex? k
+    let domes ← parseOptTxt? d
+    let plate ← parseOptTxt? p
+    let xyz ← if c = "-" then some none else
+      match c.splitOn ";" with
+      | [x, y, z] => do
+        let x ← parseValue? x; let y ← parseValue? y; let z ← parseValue? z
+        pure (some (x, y, z))
+      | _ => none
+    pure { key := key.toList, xyz := xyz, domes := domes, plate := plate }
+  | _ => none
+
+def atSign : String := String.singleton (Char.ofNat 64)
+
+def parseEpoch? (ep : String) : Option (Int × Env) :=
+  match ep.splitOn atSign with
+  | [t, env] => do
+    let t ← t.toInt?
+    let env ← parseEnv? env
+    pure (t, env)
+  | _ => none
+
+def parseCsvRow? (rw : String) : Option (List Char × List Value) :=
+  match rw.splitOn atSign with
+  | [d, vs] => do
+    let d ← decodeHex? d
+    let vs ← (vs.splitOn ";").mapM parseValue?
+    pure (d.toList, vs)
+  | _ => none
+
+def showLines : Option (List (List Char)) → String
+  | none => "err"
+  | some [] => "[]"
+  | some ls => ",".intercalate (ls.map hexOf)
+
+def parseCsvFmt? (s : String) : Option CsvFmt :=
+  if s = "s" then some .s else if s = "d" then some .d
+  else if s.startsWith "f" then ((s.drop 1).toString.toNat?).map .f else none
+
+/-- does `line` decompose into the cells at their nominal widths (literals in place)? a zero-width
+field takes everything up to the next literal (or the end) -/
+partial def conforms : List Cell → List Char → Bool
+  | [], rest => rest.isEmpty
+  | .lit t :: cs, rest =>
+    let tl := t.toList
+    if tl.isPrefixOf rest then conforms cs (rest.drop tl.length) else false
+  | .fld _ spec :: cs, rest =>
+    if spec.width = 0 then
+      match cs with
+      | .lit t :: _ =>
+        -- shortest split such that the remainder conforms
+        let n := rest.length
+        (List.range (n + 1)).any fun k => (t.toList.isPrefixOf (rest.drop k)) && conforms cs (rest.drop k)
+      | _ => conforms cs []
+    else
+      -- a cell may legitimately be wider than its width only by overflowing; that is non-conformant
+      if rest.length < spec.width then false else conforms cs (rest.drop spec.width)
+  | .other _ :: _, _ => false
 
 def handle : List String → Option String
+  | ["c17", "row", w, line, env] => do
+    let line ← line.toNat?
+    let env ← parseEnv? env
+    match renderNamed (rowAt w line) env with
+    | some l => pure (hexOf l)
+    | none => pure "err"
+  | ["c17", "nominal", w, line] => do
+    let line ← line.toNat?
+    pure (",".intercalate ((nominal (rowAt w line)).map fun (n, a, b) => s!"{encodeHex n}:{a}:{b}"))
+  | ["c17", "conforms", w, line, hx] => do
+    let line ← line.toNat?
+    let t ← decodeHex? hx
+    pure (showBool (conforms (rowAt w line) t.toList))
+  | ["c17", "crd", nan, sts] => do
+    let nan ← parseBool? nan
+    let sts ← parseList? parseStation? sts
+    pure (showLines (crdBody nan sts))
+  | ["c17", "vel", nan, sts] => do
+    let nan ← parseBool? nan
+    let sts ← parseList? parseStation? sts
+    pure (showLines (velBody nan sts))
+  | ["c17", "clu", keys] => do
+    let ks ← parseList? decodeHex? keys
+    pure (showLines (cluBody (ks.map String.toList)))
+  | ["c17", "tmscols", fields] => do
+    let fs ← parseList? some fields
+    pure (showList id (tmsColumns fs))
+  | ["c17", "tmshdr", cols] => do
+    let cs ← parseList? some cols
+    match tmsHeader cs with
+    | some l => pure (hexOf l)
+    | none => pure "err"
+  | ["c17", "tmsdata", cols, eps] => do
+    let cs ← parseList? some cols
+    let es ← if eps = "[]" then some [] else (eps.splitOn "|").mapM parseEpoch?
+    pure (showLines (tmsData cs es))
+  | ["c17", "blocks", a, b, c] => do
+    let a ← parseBool? a; let b ← parseBool? b; let c ← parseBool? c
+    let m := tmsMarkers (tmsBlocks a b c)
+    pure (",".intercalate (m.map encodeHex) ++ " " ++ showBool (balanced none m))
+  | ["c17", "csv", fmts, rws] => do
+    let fs ← parseList? parseCsvFmt? fmts
+    let rs ← if rws = "[]" then some [] else (rws.splitOn "|").mapM parseCsvRow?
+    pure (showLines (csvBody fs rs))
   | _ => none
 
 end Driver.C17
